@@ -76,6 +76,9 @@ def judge(case):
             return 'inside-multi-line-comment' if first.strip() else 'inside-own-line-multi-line-comment'
         if x.lstrip() == y.lstrip():
             import re as _re0
+            if x.lstrip().startswith((b'//', b'/*')) and _re0.search(rb'\S\s*(/\*(?:[^*]|\*(?!/))*\*/|//.*)$', prev.rstrip()):
+                # a comment that starts its own line directly behind a line that ends in a trailing comment
+                return 'leading-blanks-of-comment-behind-trailing-comment'
             pr = prev.rstrip()
             # (a comment that trails code does not end a statement: judge the code in front of it)
             while True:
@@ -185,6 +188,20 @@ def main(ctx):
         src = corpus.read(rel)
         for p in use:
             cases.append(family.Case(src, lang, {}, {'kind': 'corpus', 'file': rel}, {'profile': p}))
+    # (a2) enumerated comment shapes: a statement with a trailing comment, an own-line comment behind it at every column 0..14 - the shape
+    # on which the rules that line comments up with their neighbours (indent_comment_align_thresh ...) look at the input's columns
+    for kind2 in ('//', '/*'):
+        for col in range(0, 15):
+            for gap, ind in ((1, 0), (1, 4), (4, 4), (1, 12), (2, 0)):      # (gap in front of the trailing comment, input indent of the statement)
+                c1 = '// c1' if kind2 == '//' else '/* c1 */'
+                c2 = '// c2' if kind2 == '//' else '/* c2 */'
+                for st_ in ('x;', 'x = 1;'):       # (a short statement: its trailing comment ends up within the alignment threshold of the indent)
+                    for tail_ in ('    y = 2;\n', ''):          # (followed by a statement / by the closing brace)
+                        src = 'void f(void)\n{\n%s%s%s%s\n%s%s\n%s}\n' % (' ' * ind, st_, ' ' * gap, c1, ' ' * col, c2, tail_)
+                        for p in use:
+                            cases.append(family.Case(src.encode(), 'C', {}, {'kind': 'comment-shape',
+                                                                               'file': 'shape:cmt|%s|%d|%d|%d|%d|%d' % (kind2, col, gap, ind, len(st_), len(tail_))},
+                                                     {'profile': p}))
     # (c) weaker claim on random configs
     rc = family.random_cfgs(core.subseed(ctx.useed, 'c'), 3 if quick else 20, ('WS', 'MOD'), (0.02, 0.05, 0.1), _EX, ctx.counts)
     # "well-formed programs": the corpus files that compile stand-alone (many corpus inputs are fragments)
